@@ -46,7 +46,10 @@ pub fn lay_two_dual() -> Vec<SimIntf> {
 
 pub fn svc(ty: &str, inst: &str, host: &str, ips: &str, port: u16, props: &[(&str, &str)]) -> ServiceInfo {
     let p: Vec<TxtProperty> = props.iter().map(TxtProperty::from).collect();
-    ServiceInfo::new(ty, inst, host, ips, port, p).expect("ServiceInfo::new")
+    // Built on a fresh thread: std seeds each new HashMap/HashSet from a per-thread counter, so the
+    // iteration order of the address set (and with it the order of A records in packets) would
+    // otherwise depend on what the worker thread happened to run before.
+    std::thread::scope(|s| s.spawn(|| ServiceInfo::new(ty, inst, host, ips, port, p).expect("ServiceInfo::new")).join().expect("svc thread"))
 }
 
 /// A scripted responder's view of one service instance.
